@@ -17,6 +17,10 @@ def option_sets(nu):
         for loss, vals in ((False, False), (True, True), (True, False), (False, True)):
             for labels in (None, good):
                 out.append((dt, loss, vals, labels, None))
+    # labels need not be strings: numbers and arbitrary objects are shown through str()
+    other = [(12345.5 if i % 2 else i) if i < 2 else ("m", i) for i in range(nu)]
+    out.append(("svg", False, True, other, None))
+    out.append(("mpl", True, False, other, None))
     # deviations: must raise DisplayError
     out.append(("svg", False, False, good + ["x"], lw.DisplayError))
     out.append(("mpl", False, False, good + ["x"], lw.DisplayError))
@@ -115,6 +119,12 @@ def run(tier, seed):
                 xjobs.append((nn, (("bs", 0, 1, env.R2, "Rx", 0), ("add", "h2all", m, g), ("ps", 0, env.PH[0], 0))))
         xjobs.append((nn, (("sw", ((0, 0), (1, 1))),)))
         xjobs.append((nn, (("bs", 0, 1, env.R2, "Rx", 0), ("sw", ((1, 1),)), ("sw", ((0, 1), (1, 0))))))
+
+    # swap dictionaries written with their keys in any order (descending, unsorted), alone and between components
+    for nn, sw in ((4, ((3, 1), (1, 3))), (3, ((2, 0), (1, 2), (0, 1))), (4, ((1, 3), (0, 1), (3, 0))), (2, ((1, 0), (0, 1))),
+                   (4, ((2, 0), (0, 2))), (4, ((3, 0), (2, 1), (1, 2), (0, 3)))):
+        xjobs.append((nn, (("sw", sw),)))
+        xjobs.append((nn, (("bs", 0, 1, env.R2, "Rx", 0), ("sw", sw), ("ps", 0, env.PH[0], 0), ("sw", sw))))
 
     def xshard(js):
         a = kernel.Acc()
